@@ -108,7 +108,13 @@ public:
 
 		~DisableQueueNotify()
 		{
-			--queue->queueNotifyCounter;
+			{
+				// The counter is part of the predicate that wait() and waitFor() evaluate under
+				// queueListMutex. It must change under the same mutex, otherwise a waiter that has just
+				// evaluated the predicate, but is not blocked yet, misses the notification below.
+				std::lock_guard<Mutex> queueListLock(queue->queueListMutex);
+				--queue->queueNotifyCounter;
+			}
 			EVENTPP_VERIF_POINT("un.queue.dqn.after_decrement");
 
 			if(queue->doCanNotifyQueueAvailable() && ! queue->emptyQueue()) {
